@@ -6,7 +6,9 @@ Used by C02, C06, C07, C08 (each projects the same log onto its own Lean model a
 
 Program (JSON, one line):  {"prog": [stmt...], "sched": [int...], "wrap": bool}
  stmt ::= ["probe", n] | ["await", g] | ["awaitx", g] | ["raise", "exc"|"base"] | ["try", [stmt...]]
-        | ["spawn", c, "spawn"|"create", [stmt...]] | ["check"] | ["cancelself"]
+        | ["spawn", c, "spawn"|"create"|"factory", [stmt...]] | ["check"] | ["cancelself"]
+          ("factory": `ctx.spawn(f)` where f is a plain callable that raises KeyError the first time it is called and
+          returns the task's coroutine the second time – the spawn fails (event spawnerr), nothing may be started)
         | ["block", "async"|"sync"|"upd", b, [[ty, tag]...], [disp...], [stmt...]]
         | ["dprobe", n]    lookups with an explicit default (`ctx.state(T, default=X)`) for every type of the family
         | ["reenter", b]   the scope / update object of block b, which this task has already left, is used for a second
@@ -381,7 +383,24 @@ class Run:
                 ctx.cancel()
             elif k == "spawn":
                 _, c, how, body = st
-                if how == "spawn":
+                if how == "factory":
+                    calls = []
+
+                    def factory(c=c, body=body, calls=calls):
+                        calls.append(1)
+                        if len(calls) == 1:
+                            raise KeyError("factory")          # a LookupError raised by user code, not by the library
+                        return self.task_main(c, body)
+
+                    try:
+                        task = ctx.spawn(factory)
+                    except RuntimeError:
+                        self.ev(t, "spawnfail", c)
+                        continue
+                    except KeyError:
+                        self.ev(t, "spawnerr", c, "KeyError")
+                        continue
+                elif how == "spawn":
                     try:
                         task = ctx.spawn(self.task_main, c, body)
                     except RuntimeError:
